@@ -296,3 +296,272 @@ Proof.
 Qed.
 
 End Gen.
+
+(* ===================================================================================== *)
+(* 2. the processing order: segments of an ordered duplicate-free list, the search below y  *)
+(* ===================================================================================== *)
+Section Order.
+Context {A : Type} {SA : Scalar A}.
+Notation T := (tensor A).
+Notation heap := (@heap A).
+Notation rule := (@rule A).
+Notation idseal := (fun (_ : option nat) (g : T) => g).
+
+Lemma ordered_app_r (h : heap) : forall l1 l2, ordered h (l1 ++ l2) -> ordered h l2.
+Proof. induction l1 as [|a l1 IH]; intros l2 Ho; [exact Ho|]. cbn [app ordered] in Ho. apply IH. apply Ho. Qed.
+
+(* in an ordered duplicate-free list no node of a later segment has a tracked edge into an earlier one *)
+Lemma ord_split (h : heap) l1 l2 c e :
+  NoDup (l1 ++ l2) -> ordered h (l1 ++ l2) -> In c l2 -> In e (edgesOf h c) -> trackedOf h (fst e) = true ->
+  ~ In (fst e) l1.
+Proof.
+  intros Hn Ho Hc He Ht X. apply (NoDup_app_disj l1 l2 (fst e) Hn X).
+  eapply ordered_in; [eapply ordered_app_r; exact Ho|exact Hc|exact He|exact Ht].
+Qed.
+
+(* no node of the rest has a tracked edge into the head: what [bp_fold_spec] really needs *)
+Fixpoint noback (h : heap) (l : list nat) : Prop :=
+  match l with
+  | [] => True
+  | c :: rest => (forall c' e, In c' rest -> In e (edgesOf h c') -> trackedOf h (fst e) = true -> fst e <> c) /\ noback h rest
+  end.
+
+Lemma noback_sameS (h1 h2 : heap) l : sameS h1 h2 -> noback h1 l -> noback h2 l.
+Proof.
+  intros HS. induction l as [|c l IH]; cbn [noback]; [trivial|]. intros [Hc Hl]. split; [|auto].
+  intros c' e Hc' He Ht. rewrite <- (sameS_edges _ _ HS) in He. rewrite <- (sameS_trk _ _ HS) in Ht. eauto.
+Qed.
+
+Lemma noback_of_ordered (h : heap) : forall l, NoDup l -> ordered h l -> noback h l.
+Proof.
+  induction l as [|c l IH]; intros Hn Ho; cbn [noback]; [trivial|].
+  apply NoDup_cons_iff in Hn. destruct Hn as [Hc Hn]. destruct Ho as [_ Ho]. split; [|apply IH; assumption].
+  intros c' e Hc' He Ht X. apply Hc. rewrite <- X. eapply ordered_in; eauto.
+Qed.
+
+Lemma noback_app_r (h : heap) : forall l1 l2, noback h (l1 ++ l2) -> noback h l2.
+Proof. induction l1 as [|a l1 IH]; intros l2 Hb; [exact Hb|]. cbn [app noback] in Hb. apply IH. apply Hb. Qed.
+
+Lemma noback_app_l (h : heap) : forall l1 l2, noback h (l1 ++ l2) -> noback h l1.
+Proof.
+  induction l1 as [|a l1 IH]; intros l2 Hb; cbn [noback]; [trivial|]. cbn [app noback] in Hb. destruct Hb as [Ha Hb].
+  split; [|eapply IH; exact Hb]. intros c' e Hc'. apply Ha. apply in_or_app. left. exact Hc'.
+Qed.
+
+Section Run.
+Variable rd : bred.
+
+Lemma fold_app_ok l1 l2 (h : heap) log h' log' :
+  fold_left (process_node rd idseal) (l1 ++ l2) (h, log, Ok tt) = (h', log', Ok tt) ->
+  exists h1 log1, fold_left (process_node rd idseal) l1 (h, log, Ok tt) = (h1, log1, Ok tt) /\
+                  fold_left (process_node rd idseal) l2 (h1, log1, Ok tt) = (h', log', Ok tt).
+Proof.
+  rewrite fold_left_app. destruct (fold_left (process_node rd idseal) l1 (h, log, Ok tt)) as [[h1 log1] r1].
+  intros E. destruct r1 as [[]| |].
+  - exists h1, log1. auto.
+  - rewrite pn_sticky in E by discriminate. inversion E.
+  - rewrite pn_sticky in E by discriminate. inversion E.
+Qed.
+
+(* [bp_fold_spec] for a SEGMENT of the order: the targets of the segment's edges may lie outside it *)
+Lemma bp_fold_seg l : forall (h : heap) log h' log',
+  rules_own h -> wf_heap h -> NoDup l -> noback h l -> (forall c, In c l -> trackedOf h c = true) ->
+  fold_left (process_node rd idseal) l (h, log, Ok tt) = (h', log', Ok tt) ->
+  sameS h h' /\
+  (forall n, trackedOf h n = true -> accAll (gradOf h n) (contributions rd h' h l n) = Some (gradOf h' n)) /\
+  (forall n, trackedOf h n = false -> gradOf h' n = gradOf h n).
+Proof.
+  induction l as [|c l IH]; intros h log h' log' Hown Hwf Hnd Hnb Htr E.
+  - cbn [fold_left] in E. inversion E; subst h' log'. split; [apply sameS_refl|]. split; intros n _; reflexivity.
+  - destruct (pn_fold_cons rd _ _ _ _ _ _ E) as (h1 & log1 & E1 & E2).
+    destruct (process_node_spec rd _ _ _ _ _ Hown Hwf E1) as (NS & Nc & Nacc & Nun & _ & _).
+    apply NoDup_cons_iff in Hnd. destruct Hnd as [Hnc Hnd']. destruct Hnb as [Hc Hnb'].
+    assert (Hown1 : rules_own h1) by (eapply rules_own_sameS; eauto).
+    assert (Hwf1 : wf_heap h1) by (eapply wf_heap_sameS; eauto).
+    assert (Hnb1 : noback h1 l) by (eapply noback_sameS; eauto).
+    assert (Htr1 : forall c0, In c0 l -> trackedOf h1 c0 = true).
+    { intros c0 H0. rewrite <- (sameS_trk _ _ NS). apply Htr. right. exact H0. }
+    destruct (IH h1 log1 h' log' Hown1 Hwf1 Hnd' Hnb1 Htr1 E2) as (IS & Iacc & Iun). clear IH.
+    assert (Hct : trackedOf h c = true) by (apply Htr; left; reflexivity).
+    assert (Hfin : gradOf h' c = gradOf h c).
+    { rewrite <- Nc. assert (Hct1 : trackedOf h1 c = true) by (rewrite <- (sameS_trk _ _ NS); exact Hct).
+      specialize (Iacc c Hct1). unfold contributions in Iacc. rewrite flat_map_nil' in Iacc; [cbn [accAll] in Iacc; congruence|].
+      intros c' Hc'. apply flat_map_nil'. intros e He. unfold contrib_e.
+      destruct (fst e =? c) eqn:Ee; [|reflexivity]. apply Nat.eqb_eq in Ee. exfalso.
+      apply (Hc c' e Hc'); [rewrite (sameS_edges _ _ NS); exact He|rewrite Ee; exact Hct|exact Ee]. }
+    assert (HSf : sameS h h') by (eapply sameS_trans; eauto).
+    assert (Hextc : forall n e, In e (edgesOf h c) -> contrib_e rd h' n e = contrib_e rd h n e).
+    { intros n e He. apply contrib_e_ext; [intros i; symmetry; apply (sameS_val _ _ HSf)|].
+      rewrite (rules_own_edgesOf _ Hown _ _ He). exact Hfin. }
+    split; [exact HSf|]. split.
+    + intros n Hn. unfold contributions. cbn [flat_map]. fold (contributions rd h' h l n).
+      rewrite accAll_app. rewrite (flat_map_ext_in' _ _ _ (Hextc n)). rewrite (Nacc n Hn).
+      rewrite (contributions_sameS rd h' h h1 l n NS). apply Iacc. rewrite <- (sameS_trk _ _ NS). exact Hn.
+    + intros n Hn. rewrite Iun; [apply Nun; exact Hn|]. rewrite <- (sameS_trk _ _ NS). exact Hn.
+Qed.
+
+(* contributions evaluated in two heaps in which the consumers hold the same gradients *)
+Lemma contributions_ext (hf1 hf2 hs : heap) l n :
+  rules_own hs -> (forall i, valOf hf1 i = valOf hf2 i) -> (forall c, In c l -> gradOf hf1 c = gradOf hf2 c) ->
+  contributions rd hf1 hs l n = contributions rd hf2 hs l n.
+Proof.
+  intros Hown Hv Hg. unfold contributions. apply flat_map_ext_in'. intros c Hc. apply flat_map_ext_in'. intros e He.
+  apply contrib_e_ext; [exact Hv|]. rewrite (rules_own_edgesOf _ Hown _ _ He). apply Hg. exact Hc.
+Qed.
+
+Lemma contributions_app (hf hs : heap) l1 l2 n :
+  contributions rd hf hs (l1 ++ l2) n = contributions rd hf hs l1 n ++ contributions rd hf hs l2 n.
+Proof. unfold contributions. apply flat_map_app. Qed.
+
+End Run.
+
+(* ---------- the search reaches y from a state in which the component is untouched ---------- *)
+Section Find.
+Variable H : heap.
+Hypothesis W : wf_heap H.
+Variables (y : nat) (ints : list nat).
+
+(* internal nodes are reachable only through the component *)
+Definition no_outside_edge : Prop :=
+  forall c e, In e (edgesOf H c) -> In (fst e) ints -> In c (y :: ints).
+Hypothesis NE : no_outside_edge.
+
+(* an internal node is visited only after y *)
+Definition Iv (V : list nat) : Prop := forall n, In n ints -> In n V -> In y V.
+
+Lemma dfs_mono fuel n st : incl (fst st) (fst (dfs fuel H n st)).
+Proof.
+  destruct (dfs_grow H W fuel n st) as (nv & nr & E & _). rewrite E. cbn [fst]. intros a Ha. apply in_or_app. right. exact Ha.
+Qed.
+
+Lemma dfs_snd_grow fuel n st : exists nr, snd (dfs fuel H n st) = nr ++ snd st.
+Proof. destruct (dfs_grow H W fuel n st) as (nv & nr & E & _). rewrite E. exists nr. reflexivity. Qed.
+
+Lemma dfs_fold_snd_grow fuel (es : list (nat * rule)) : forall s,
+  exists nr, snd (fold_left (fun s e => dfs fuel H (fst e) s) es s) = nr ++ snd s.
+Proof.
+  induction es as [|e es IH]; intros s; cbn [fold_left]; [exists []; reflexivity|].
+  destruct (IH (dfs fuel H (fst e) s)) as (nr2 & E2). destruct (dfs_snd_grow fuel (fst e) s) as (nr1 & E1).
+  exists (nr2 ++ nr1). rewrite E2, E1, app_assoc. reflexivity.
+Qed.
+
+Lemma dfs_Iv fuel : forall n st, Iv (fst st) -> (In n ints -> In y (fst st)) -> Iv (fst (dfs fuel H n st)).
+Proof.
+  induction fuel as [|f IH]; intros n st HI Hn; [exact HI|]. cbn [dfs].
+  destruct (negb (trackedOf H n) || memb n (fst st)); [exact HI|]. cbn [fst].
+  assert (Hfold : forall (es : list (nat * rule)) s, (forall e, In e es -> In e (edgesOf H n)) ->
+            Iv (fst s) -> In n (fst s) -> (In n ints -> In y (fst s)) ->
+            Iv (fst (fold_left (fun s e => dfs f H (fst e) s) es s))).
+  { induction es as [|e es IHes]; intros s Hes HIs Hns Hys; cbn [fold_left]; [exact HIs|].
+    apply IHes.
+    - intros e0 H0. apply Hes. right. exact H0.
+    - apply IH; [exact HIs|]. intros Hi. destruct (NE n e (Hes e (or_introl eq_refl)) Hi) as [<-|Hni]; [exact Hns|apply Hys; exact Hni].
+    - apply dfs_mono. exact Hns.
+    - intros Hni. apply dfs_mono. apply Hys. exact Hni. }
+  apply Hfold.
+  - intros e He. exact He.
+  - intros m Hm [<-|Hv]; [right; apply Hn; exact Hm|right; exact (HI m Hm Hv)].
+  - left. reflexivity.
+  - intros Hni. right. apply Hn. exact Hni.
+Qed.
+
+(* FIRST VISIT: if y is posted during a call, the posted list is [pre ++ (what the call at y posts)] and
+   that call starts from a state satisfying the invariant in which y is not visited *)
+Lemma dfs_find fuel : forall n st,
+  Iv (fst st) -> (In n ints -> In y (fst st)) -> n < fuel ->
+  In y (snd (dfs fuel H n st)) -> ~ In y (snd st) ->
+  exists f V R pre, y < f /\ memb y V = false /\ trackedOf H y = true /\ Iv V /\
+    snd (dfs fuel H n st) = pre ++ snd (dfs f H y (V, R)).
+Proof.
+  induction fuel as [|f IH]; intros n st HI Hn Hlt Hin Hnot; [lia|].
+  cbn [dfs] in Hin |- *.
+  destruct (negb (trackedOf H n) || memb n (fst st)) eqn:Ec; [contradiction|].
+  apply orb_false_iff in Ec. destruct Ec as [Et Em]. apply negb_false_iff in Et.
+  cbn [snd] in Hin |- *.
+  destruct (Nat.eq_dec n y) as [->|Hny].
+  - exists (S f), (fst st), (snd st), []. split; [exact Hlt|]. split; [exact Em|]. split; [exact Et|]. split; [exact HI|].
+    cbn [app dfs fst snd]. rewrite Et, Em. reflexivity.
+  - destruct Hin as [Hin|Hin]; [congruence|].
+    assert (Hfold : forall (es : list (nat * rule)) s, (forall e, In e es -> In e (edgesOf H n)) ->
+              Iv (fst s) -> In n (fst s) -> (In n ints -> In y (fst s)) ->
+              In y (snd (fold_left (fun s e => dfs f H (fst e) s) es s)) -> ~ In y (snd s) ->
+              exists f' V R pre, y < f' /\ memb y V = false /\ trackedOf H y = true /\ Iv V /\
+                snd (fold_left (fun s e => dfs f H (fst e) s) es s) = pre ++ snd (dfs f' H y (V, R))).
+    { induction es as [|e es IHes]; intros s Hes HIs Hns Hys Hiny Hnoty; cbn [fold_left] in Hiny |- *; [contradiction|].
+      assert (Hpre : In (fst e) ints -> In y (fst s)).
+      { intros Hi. destruct (NE n e (Hes e (or_introl eq_refl)) Hi) as [<-|Hni]; [exact Hns|apply Hys; exact Hni]. }
+      destruct (in_dec Nat.eq_dec y (snd (dfs f H (fst e) s))) as [Hy1|Hy1].
+      - destruct (IH (fst e) s HIs Hpre) as (f' & V & R & pre & A1 & A2 & A3 & A4 & A5); [|exact Hy1|exact Hnoty|].
+        { pose proof (wf_heap_edgesOf _ W _ _ (Hes e (or_introl eq_refl))). lia. }
+        destruct (dfs_fold_snd_grow f es (dfs f H (fst e) s)) as (nr & Enr).
+        exists f', V, R, (nr ++ pre). repeat (split; [assumption|]). rewrite Enr, A5, app_assoc. reflexivity.
+      - apply IHes.
+        + intros e0 H0. apply Hes. right. exact H0.
+        + apply dfs_Iv; assumption.
+        + apply dfs_mono. exact Hns.
+        + intros Hni. apply dfs_mono. apply Hys. exact Hni.
+        + exact Hiny.
+        + exact Hy1. }
+    destruct (Hfold (edgesOf H n) (n :: fst st, snd st)) as (f' & V & R & pre & A1 & A2 & A3 & A4 & A5).
+    + intros e He. exact He.
+    + cbn [fst]. intros m Hm [<-|Hv]; [right; apply Hn; exact Hm|right; exact (HI m Hm Hv)].
+    + left. reflexivity.
+    + intros Hni. right. apply Hn. exact Hni.
+    + exact Hin.
+    + exact Hnot.
+    + exists f', V, R, (n :: pre). repeat (split; [assumption|]). rewrite A5. reflexivity.
+Qed.
+
+Hypothesis Hlow : forall n, In n ints -> n < y.
+
+Theorem topo_find r : In y (topoOrder H r) ->
+  exists f V R pre, y < f /\ ~ In y V /\ (forall n, In n ints -> ~ In n V) /\ trackedOf H y = true /\
+    topoOrder H r = pre ++ snd (dfs f H y (V, R)).
+Proof.
+  intros Hin. unfold topoOrder in *.
+  assert (Hyr : y <= r).
+  { destruct (dfs_new H W (S r) r ([], [])) as (new & En & Hnew). rewrite En in Hin. cbn [snd] in Hin. rewrite app_nil_r in Hin.
+    apply (Hnew y Hin). }
+  destruct (dfs_find (S r) r ([], [])) as (f & V & R & pre & A1 & A2 & A3 & A4 & A5).
+  - intros n _ [].
+  - intros Hi. specialize (Hlow r Hi). lia.
+  - lia.
+  - exact Hin.
+  - intros [].
+  - exists f, V, R, pre. split; [exact A1|]. assert (Hyv : ~ In y V) by (intros X; apply memb_in in X; congruence).
+    split; [exact Hyv|]. split; [intros n Hn X; apply Hyv; apply (A4 n Hn X)|]. split; [exact A3|exact A5].
+Qed.
+
+End Find.
+
+(* ---------- what a block in the order entails ---------- *)
+Definition topo_block (H : heap) (r x y : nat) (ints : list nat) : Prop :=
+  exists pre post,
+    topoOrder H r = pre ++ (y :: ints) ++ post /\
+    (forall n, In n (y :: ints) -> ~ In n pre /\ ~ In n post) /\
+    ~ In x pre /\
+    (forall c e, In c (topoOrder H r) -> In e (edgesOf H c) -> fst e = y -> In c pre).
+
+Lemma topo_block_intro (H : heap) r x y ints pre post ex :
+  wf_heap H -> trackedOf H r = true ->
+  topoOrder H r = pre ++ (y :: ints) ++ post ->
+  In ex (edgesOf H y) -> fst ex = x -> trackedOf H x = true ->
+  topo_block H r x y ints.
+Proof.
+  intros W Hr E Hex Hfx Tx.
+  destruct (topoOrder_facts H r W Hr) as (Hnd & Htr & Hord & _). cbv zeta in *. rewrite E in Hnd, Hord, Htr.
+  exists pre, post. split; [exact E|]. split; [|split].
+  - intros n Hn. split; intros X.
+    + apply (NoDup_app_disj pre ((y :: ints) ++ post) n Hnd X). apply in_or_app. left. exact Hn.
+    + rewrite app_assoc in Hnd. apply (NoDup_app_disj (pre ++ y :: ints) post n Hnd); [apply in_or_app; right; exact Hn|exact X].
+  - intros X. subst x. apply (ord_split H pre ((y :: ints) ++ post) y ex Hnd Hord); [left; reflexivity|exact Hex|exact Tx|exact X].
+  - intros c e Hc He Hfe. rewrite E in Hc. apply in_app_or in Hc. destruct Hc as [Hc|Hc]; [exact Hc|exfalso].
+    assert (Ty : trackedOf H y = true) by (apply Htr; apply in_or_app; right; left; reflexivity).
+    destruct Hc as [<-|Hc].
+    + pose proof (wf_heap_edgesOf _ W _ _ He). lia.
+    + change (pre ++ (y :: ints) ++ post) with (pre ++ [y] ++ (ints ++ post)) in Hnd, Hord. rewrite app_assoc in Hnd, Hord.
+      apply (ord_split H (pre ++ [y]) (ints ++ post) c e Hnd Hord Hc He); [rewrite Hfe; exact Ty|].
+      rewrite Hfe. apply in_or_app. right. left. reflexivity.
+Qed.
+
+End Order.
